@@ -148,8 +148,31 @@ func judge(c Case) *pbt.Verdict {
 	if _, err := mh.FromMsgReader(peer.ID("p"), rd); err != io.EOF {
 		return v.Failf("after the last message the stream yields %v, want io.EOF", err)
 	}
+	// the same stream read with one FromNet call per message (FromNet takes any io.Reader and must
+	// not consume more than the message it returns); a plain reader without ReadByte / buffering
+	var stream2 bytes.Buffer
+	for _, m := range built {
+		_ = mh.ToNet(peer.ID("p"), m, &stream2)
+	}
+	plain := onlyReader{&stream2}
+	for i, m := range built {
+		dec, err := mh.FromNet(peer.ID("p"), plain)
+		if err != nil {
+			return v.Failf("FromNet call %d of %d on one stream failed: %v", i+1, len(built), err)
+		}
+		if d := msggen.Diff(m, dec); d != "" {
+			return v.Failf("FromNet call %d on one stream returned a different message: %s", i+1, d)
+		}
+	}
+	if _, err := mh.FromNet(peer.ID("p"), plain); err != io.EOF {
+		return v.Failf("FromNet after the last message of the stream yields %v, want io.EOF", err)
+	}
 	return v
 }
+
+type onlyReader struct{ r io.Reader }
+
+func (o onlyReader) Read(p []byte) (int, error) { return o.r.Read(p) }
 
 // extension payload codecs
 type ExtCase struct {
